@@ -129,7 +129,7 @@ func (tmg *TCPMuxGroup) HTTPConnectListen(
 		if tmg.acceptCh == nil {
 			tmg.acceptCh = make(chan net.Conn)
 		}
-		go tmg.worker()
+		go tmg.worker(tcpMuxLn, tmg.acceptCh)
 	} else {
 		// route config in the same group must be equal
 		if tmg.group != group || tmg.domain != routeConfig.Domain ||
@@ -148,14 +148,14 @@ func (tmg *TCPMuxGroup) HTTPConnectListen(
 }
 
 // worker is called when the real TCP listener has been created
-func (tmg *TCPMuxGroup) worker() {
+func (tmg *TCPMuxGroup) worker(realLn net.Listener, acceptCh chan<- net.Conn) {
 	for {
-		c, err := tmg.tcpMuxLn.Accept()
+		c, err := realLn.Accept()
 		if err != nil {
 			return
 		}
 		err = gerr.PanicToError(func() {
-			tmg.acceptCh <- c
+			acceptCh <- c
 		})
 		if err != nil {
 			c.Close()
